@@ -189,6 +189,9 @@ MUTANTS = [
     ("unpermuter-aliases-captured-permutation", {"C10": "A9.inplace"}, [(NV, "    unsort = anp.zeros(len(permutation), dtype=int)\n    unsort[permutation] = list(range(len(permutation)))", "    unsort = anp.asarray(permutation, dtype=int)\n    unsort[permutation] = anp.arange(len(permutation))")]),
     ("cumsum-reverse-by-slicing-tuple", {"C01": "A7"}, [(NV, "def reverse_axis(x, axis):\n    x = x.swapaxes(axis, 0)\n    x = x[::-1, ...]\n    return x.swapaxes(0, axis)", "def reverse_axis(x, axis):\n    return x[(slice(None),) * axis + (slice(None, None, -1),)]")]),
     ("find-top-collect-then-filter", {"C08": "A12.top"}, [(TR, "            if trace > top_trace:\n                top_boxes = [(argnum, arg)]\n                top_trace = trace\n                top_node_type = type(arg._node)\n            elif trace == top_trace:\n                top_boxes.append((argnum, arg))", "            top_boxes.append((argnum, arg))\n            if trace > top_trace:\n                top_trace = trace\n                top_node_type = type(arg._node)")]),
+    ("tensordot-adjoint0-wrong-argsort", {"C04": "A17", "C01": "A17"}, [(NV, "        perm = onp.argsort(onp.concatenate((other_axes[0], summed_axes[0][onp.argsort(summed_axes[1])])))", "        perm = onp.argsort(onp.concatenate((other_axes[0], summed_axes[0][onp.argsort(summed_axes[0])])))")]),
+    ("tensordot-adjoint1-int-axes-slice", {"C04": "A17"}, [(NV, "return onp.tensordot(A, G, [A_axes[: A_ndim - axes], G_axes[: A_ndim - axes]])", "return onp.tensordot(A, G, [A_axes[: A_ndim - axes], G_axes[axes:A_ndim]])")]),
+    ("dot-adjoint0-no-swap", {"C04": "A17", "C01": "A17"}, [(NV, "        out = onp.tensordot(G, onp.swapaxes(B, -1, -2), B_ndim - 1)", "        out = onp.tensordot(G, B, B_ndim - 1)")]),
     ("container-space-loses-subval", {"C12": "A1.spaces"}, [(BU, "    def _subval(self, xs, idx, x):\n        d = dict(xs.items())\n        d[idx] = x\n        return d\n", "")]),
 ]
 
